@@ -14,6 +14,8 @@ from xv.core import Harness, run
 from xv.env import mweb
 from xv.env import world as Wm
 
+PRECHECK = "xv.validate_env"  # thorough tier: model vs real normpath / file system / lock file / stores
+
 EXPLANATION = (
     "C13: for each method the request path is symbolic (a raw string over '/', '.', and name characters, and a "
     "list of segments from an adversarial menu); every path handed to a file-system primitive is recorded by the "
